@@ -205,8 +205,28 @@ def replay_behaviour(text, seed):
     return run, mism
 
 
+def blame(mism):
+    """A behaviour of the composed specification, forced through the runner, ended in another state than TLC computed:
+    -> {property: short description}.  Holdings belong to C05; a market whose running flag differs to C16; a market whose
+    book or series differ - orders matched that the specification leaves resting, or the reverse - to C09 and C16."""
+    if mism is None:
+        return {}
+    what = mism.get("what", "")
+    if what.startswith("holdings"):
+        return {"C05": "holdings-" + what.split()[-1]}
+    if what.startswith("market"):
+        mo, im = mism.get("model", {}), mism.get("impl", {})
+        step = what.split()[-1]
+        if mo.get("run") != im.get("run"):
+            # a market stopped where the specification has it running (or the reverse): the halt rule (C16), and with it
+            # whether rounds follow acceptances (C09)
+            return {"C16": "running-flag-step-" + step, "C09": "running-flag-step-" + step}
+        return {"C09": "books-step-" + step, "C16": "books-step-" + step}
+    return {"C09": what.replace(" ", "-")[:40], "C05": what.replace(" ", "-")[:40], "C16": what.replace(" ", "-")[:40]}
+
+
 def runs(tier, seed, profiles=("plain", "halt")):
-    num = 8 if tier == "quick" else 400
+    num = 8 if tier == "quick" else 300
     last_stats.update(behaviours=0, steps_compared=0, state_mismatches=0, first_mismatch=None, actions=0, orders=0, halts=0)
     out = []
     for prof in profiles:
@@ -215,7 +235,7 @@ def runs(tier, seed, profiles=("plain", "halt")):
         shutil.rmtree(d, ignore_errors=True)
         os.makedirs(d)
         try:
-            r = tlc.run_tlc(mod, mod + ".cfg", workers=1, timeout=1800, simulate="file=%s/tr,num=%d" % (d, num),
+            r = tlc.run_tlc(mod, mod + ".cfg", workers=1, timeout=5400, simulate="file=%s/tr,num=%d" % (d, num),
                             depth=700, seed=sub_seed(seed, "simsys", prof) % (2 ** 31), tag="sim-system-" + prof)
             if r.violation or (r.error and "Finished in" not in r.out):
                 raise MachineryError("simulation of PamsSystem (%s) failed: %s" % (prof, r.violation or r.error))
@@ -224,6 +244,7 @@ def runs(tier, seed, profiles=("plain", "halt")):
                 if run is None:
                     continue
                 run["src"] = "tlc-system" if prof == "plain" else "tlc-system-halt"
+                run["mismatch"] = blame(mism)
                 out.append(run)
                 last_stats["behaviours"] += 1
                 if mism is not None:
